@@ -47,14 +47,28 @@ def strip_comments(s):
     return ''.join(out)
 
 
+def _macro_args():
+    return ['-x', 'c++', '-std=c++11', '-I', os.path.join(REPO, 'include'),
+            '-imacros', 'tins/macros.h', '-imacros', 'tins/endianness.h', '-imacros', 'tins/cxxstd.h']
+
+
 @functools.lru_cache(maxsize=None)
 def read_source(relpath):
     path = os.path.join(REPO, relpath)
     try:
         with open(path) as f:
-            return strip_comments(f.read())
+            text = strip_comments(f.read())
     except OSError as e:
         raise ExtractError('cannot read %s: %s' % (path, e))
+    # resolve the file's own #if blocks with the library's configuration macros; #include lines are dropped
+    text = re.sub(r'^[ \t]*#[ \t]*include[^\n]*$', '', text, flags=re.M)
+    g = re.search(r'#\s*ifndef\s+(\w+)\s*\n\s*#\s*define\s+\1\b', text)
+    if g:   # the include guard is already defined by -imacros for the three configuration headers
+        text = re.sub(r'\b' + g.group(1) + r'\b', g.group(1) + '_VERIF_EXTRACT', text)
+    r = subprocess.run(['g++', '-E'] + _macro_args() + ['-'], input=text, capture_output=True, text=True)
+    if r.returncode != 0:
+        raise ExtractError('preprocessing %s failed: %s' % (relpath, r.stderr[:400]))
+    return re.sub(r'^# \d+ [^\n]*$', '', r.stdout, flags=re.M)
 
 
 def match_bracket(s, i, open_c, close_c):
@@ -227,7 +241,6 @@ def find_initializer(relpath, name):
     return src[m.start():e + 1].strip()
 
 
-@functools.lru_cache(maxsize=None)
 def _macro_args():
     return ['-x', 'c++', '-std=c++11', '-I', os.path.join(REPO, 'include'),
             '-imacros', 'tins/macros.h', '-imacros', 'tins/endianness.h', '-imacros', 'tins/cxxstd.h']
